@@ -1,5 +1,5 @@
 (** C11 / C15: enumeration and index sets (specification-level facts). *)
-From Coq Require Import List Arith ZArith Bool Lia.
+From Coq Require Import List Arith ZArith Bool Lia Sorted.
 From Meddly Require Import Model.DD Model.Build Model.Enum Proofs.DDFacts.
 Import ListNotations.
 Local Open Scope nat_scope.
@@ -88,3 +88,107 @@ Proof.
 Qed.
 
 End EnumP.
+
+(** ** the enumeration is strictly increasing in lexicographic order *)
+Section Sorted.
+Variable sz : nat -> nat.
+
+(** [x] precedes [y]: they agree above some level [k <= L], where [x] is smaller *)
+Definition lex_lt (L : nat) (x y : nat -> nat) : Prop :=
+  exists k, 1 <= k <= L /\ x k < y k /\ forall j, k < j <= L -> x j = y j.
+
+Lemma lex_lt_irrefl L x : ~ lex_lt L x x.
+Proof. intros (k & _ & H & _). lia. Qed.
+
+Lemma lex_lt_trans L x y z : lex_lt L x y -> lex_lt L y z -> lex_lt L x z.
+Proof.
+  intros (k & Hk & Hlt & Heq) (k' & Hk' & Hlt' & Heq').
+  destruct (Nat.lt_trichotomy k k') as [H|[H|H]].
+  - exists k'. split; [exact Hk'|]. split; [rewrite (Heq k') by lia; exact Hlt'|].
+    intros j Hj. rewrite (Heq j) by lia. apply Heq'. lia.
+  - subst k'. exists k. split; [exact Hk|]. split; [lia|].
+    intros j Hj. rewrite (Heq j) by lia. apply Heq'. lia.
+  - exists k. split; [exact Hk|]. split; [rewrite <- (Heq' k) by lia; exact Hlt|].
+    intros j Hj. rewrite (Heq j) by lia. apply Heq'. lia.
+Qed.
+
+Lemma sorted_app {A} (R : A -> A -> Prop) (l1 l2 : list A) :
+  StronglySorted R l1 -> StronglySorted R l2 ->
+  (forall a b, In a l1 -> In b l2 -> R a b) -> StronglySorted R (l1 ++ l2).
+Proof.
+  intros H1 H2 H. induction H1 as [|a l1 Hs IH Hall]; cbn; [exact H2|].
+  constructor.
+  - apply IH. intros x y Hx Hy. apply H; [now right|exact Hy].
+  - apply Forall_app. split; [exact Hall|].
+    apply Forall_forall. intros y Hy. apply H; [now left|exact Hy].
+Qed.
+
+Lemma sorted_filter {A} (R : A -> A -> Prop) (f : A -> bool) l :
+  StronglySorted R l -> StronglySorted R (filter f l).
+Proof.
+  induction 1 as [|a l Hs IH Hall]; cbn; [constructor|].
+  destruct (f a); [|exact IH]. constructor; [exact IH|].
+  apply Forall_forall. intros y Hy. apply filter_In in Hy.
+  rewrite Forall_forall in Hall. apply Hall. tauto.
+Qed.
+
+Lemma all_asg_level : forall L x, In x (all_asg sz L) -> forall k, L < k -> x k = 0.
+Proof.
+  induction L as [|L IH]; intros x Hx k Hk.
+  - cbn in Hx. destruct Hx as [<-|[]]. reflexivity.
+  - cbn [all_asg] in Hx. apply in_flat_map in Hx. destruct Hx as (i & _ & Hx).
+    apply in_map_iff in Hx. destruct Hx as (x0 & <- & Hx0).
+    rewrite upd_other by lia. apply (IH x0 Hx0). lia.
+Qed.
+
+Theorem all_asg_sorted : forall L, StronglySorted (lex_lt L) (all_asg sz L).
+Proof.
+  induction L as [|L IH]; [repeat constructor|].
+  cbn [all_asg].
+  (* blocks for the values i = s, s+1, ... of the top level *)
+  assert (Hblock : forall i, StronglySorted (lex_lt (S L)) (map (fun x => upd x (S L) i) (all_asg sz L))).
+  { intros i. induction IH as [|a l Hs IHs Hall]; cbn; [constructor|].
+    constructor; [exact IHs|]. apply Forall_forall. intros y Hy.
+    apply in_map_iff in Hy. destruct Hy as (b & <- & Hb).
+    rewrite Forall_forall in Hall. destruct (Hall b Hb) as (k & Hk & Hlt & Heq).
+    exists k. split; [lia|]. split; [rewrite !upd_other by lia; exact Hlt|].
+    intros j Hj. unfold upd. destruct (Nat.eqb_spec j (S L)); [reflexivity|]. apply Heq. lia. }
+  assert (Hgen : forall n s, StronglySorted (lex_lt (S L))
+                   (flat_map (fun i => map (fun x => upd x (S L) i) (all_asg sz L)) (seq s n))).
+  { induction n as [|n IHn]; intros s; cbn; [constructor|].
+    apply sorted_app; [apply Hblock|apply IHn|].
+    intros a b Ha Hb. apply in_map_iff in Ha. destruct Ha as (a0 & <- & _).
+    apply in_flat_map in Hb. destruct Hb as (i & Hi & Hb). apply in_seq in Hi.
+    apply in_map_iff in Hb. destruct Hb as (b0 & <- & _).
+    exists (S L). split; [lia|]. split; [rewrite !upd_same; lia|]. intros j Hj. lia. }
+  apply Hgen.
+Qed.
+
+Lemma enum_fst r L t mask :
+  map fst (enum sz r L t mask)
+  = filter (fun x => matches L mask x && negb (Z.eqb (eval r L t x) 0)) (all_asg sz L).
+Proof.
+  unfold enum. induction (all_asg sz L) as [|x l IH]; [reflexivity|]. cbn [filter].
+  destruct (matches L mask x); cbn [andb map filter snd]; [|exact IH].
+  destruct (negb (Z.eqb (eval r L t x) 0)); cbn [map fst]; [f_equal; exact IH|exact IH].
+Qed.
+
+Theorem enum_strictly_increasing r L t mask :
+  StronglySorted (lex_lt L) (map fst (enum sz r L t mask)).
+Proof. rewrite enum_fst. apply sorted_filter, all_asg_sorted. Qed.
+
+(** consequently no assignment is visited twice *)
+Corollary enum_no_repetition r L t mask i j :
+  i < j -> j < length (enum sz r L t mask) ->
+  lex_lt L (nth i (map fst (enum sz r L t mask)) (fun _ => 0))
+           (nth j (map fst (enum sz r L t mask)) (fun _ => 0)).
+Proof.
+  intros Hij Hj. pose proof (enum_strictly_increasing r L t mask) as Hs.
+  rewrite <- (map_length fst) in Hj. revert i j Hij Hj.
+  induction Hs as [|a l Hs IH Hall]; intros i j Hij Hj; [cbn in Hj; lia|].
+  destruct j as [|j]; [lia|]. destruct i as [|i]; cbn [nth].
+  - rewrite Forall_forall in Hall. apply Hall, nth_In. cbn in Hj. lia.
+  - apply IH; [lia|cbn in Hj; lia].
+Qed.
+
+End Sorted.
